@@ -286,7 +286,7 @@ def reader_case(ctx, i, rng):
     ctx.fingerprint(("reader", os.path.basename(f)), True)
 
 
-def cross_policy_case(ctx, i, rng):
+def cross_policy_case(ctx, i, rng, judge="C10"):
     """A subtree built as an ORPHAN under the DEFAULT policy (where any identifier is accepted) is added to an EDIF-policy
     parent: the add must be refused exactly when the subtree holds an illegal identifier or siblings whose identifiers are
     equal ignoring case, at ANY depth; an accepted add must leave every scope legal and unique."""
@@ -366,6 +366,11 @@ def cross_policy_case(ctx, i, rng):
     if any("EDIF.identifier" in s_ and "EDIF.identifier" in sub and s_["EDIF.identifier"].lower() == sub["EDIF.identifier"].lower() for s_ in sibs):
         off.append("identifier of the subtree root collides with a sibling in the host scope")
     ctx.count("cross_policy_adds")
+    if judge == "C14":
+        from .. import snapshot
+        from ..universe import Universe
+        U_ = Universe.of(sub)
+        before_ = snapshot.snap(U_, tables=True)
     try:
         (n.add_library if what == "library" else host_lib.add_definition)(sub)
         accepted = True
@@ -373,6 +378,15 @@ def cross_policy_case(ctx, i, rng):
         accepted = False
     except Exception as ex:  # noqa: BLE001
         ctx.violation("cross-policy-add-crashed:%s" % type(ex).__name__, "%r at %s" % (ex, probes.innermost_frame(ex)))
+        return
+    if judge == "C14":
+        if not accepted:
+            ctx.count("refusals_checked")
+            d_ = snapshot.diff(before_, snapshot.snap(U_, tables=True))
+            if d_ is not None:
+                ctx.violation("refused-call-changed-state:cross-policy-add_%s:%s" % (what, d_[0][0]),
+                              "add_%s of a DEFAULT-built orphan refused by the EDIF-policy parent, but fact %s of the ORPHAN changed from %r to %r" % (
+                                  what, d_[0][0], d_[1], d_[2]))
         return
     ctx.count("naming_edits_judged")
     if accepted and off:
@@ -383,11 +397,90 @@ def cross_policy_case(ctx, i, rng):
         return
     if accepted:
         for P in [n] + list(n.libraries) + [d_ for l in n.libraries for d_ in l.definitions]:
-            r = scan_scope(ctx, P)
+            r = scan_scope(ctx, P) or lookup_scope(ctx, P)
             if r:
                 ctx.violation("cross-policy:%s" % r[0], r[1])
                 return
     ctx.fingerprint(("cross", what, tuple(off), accepted), True)
+
+
+def to_default_case(ctx, i, rng, judge="C10"):
+    """The other direction: a subtree built as an ORPHAN under the EDIF policy is added to a DEFAULT-policy parent.  Under the
+    DEFAULT policy only exact name duplicates among siblings OF THE SAME KIND matter (ports, cables and instances of a
+    definition are three scopes), so the add is refused exactly when the subtree's root collides with a host sibling; a
+    refused add leaves the orphan (its data, its policy, its name tables) as it was (judge="C14")."""
+    from .. import snapshot
+    from ..universe import Universe
+    sdn.namespace_manager.default = "DEFAULT"
+    n = sdn.Netlist("n")
+    host_lib = n.create_library("host")
+    host_def = host_lib.create_definition("hostdef")
+    host_lib.create_definition("x0")
+    n.create_library("x1")
+    sdn.namespace_manager.default = "EDIF"
+    pool = ["x0", "x1", "q", "Q", "y"]
+    what = rng.choice(["library", "definition"])
+    try:
+        if what == "library":
+            sub = sdn.Library(rng.choice(pool))
+            hosts = [sub.create_definition(nm) for nm in rng.sample(pool, rng.randint(1, 3))]
+            parent = n
+        else:
+            sub = sdn.Definition(rng.choice(pool))
+            hosts = [sub]
+            parent = host_lib
+        k = 0
+        for d in hosts:
+            for nm in rng.sample(pool, rng.randint(1, 4)):
+                for mk in rng.sample([lambda: d.create_port(nm, pins=1), lambda: d.create_cable(nm, wires=1),
+                                      lambda: d.create_child(nm, reference=host_def)], rng.randint(1, 3)):
+                    try:
+                        x = mk()
+                        if rng.random() < 0.5:
+                            x["EDIF.identifier"] = "id%d" % k
+                        k += 1
+                    except ValueError:
+                        pass        # the EDIF policy of the orphan refused a case-variant sibling
+    finally:
+        sdn.namespace_manager.default = "DEFAULT"
+    sibs = list(n.libraries) if what == "library" else list(host_lib.definitions)
+    must_refuse = any(s_.name == sub.name for s_ in sibs)
+    U = Universe.of(sub)
+    before = snapshot.snap(U, tables=True)
+    ctx.count("cross_policy_adds")
+    ctx.count("cross_policy_adds_edif_to_default")
+    try:
+        (n.add_library if what == "library" else host_lib.add_definition)(sub)
+        accepted = True
+    except ValueError:
+        accepted = False
+    except Exception as ex:  # noqa: BLE001
+        ctx.violation("cross-policy-add-crashed:%s" % type(ex).__name__, "%r at %s" % (ex, probes.innermost_frame(ex)))
+        return
+    if judge == "C14":
+        if not accepted:
+            ctx.count("refusals_checked")
+            d = snapshot.diff(before, snapshot.snap(U, tables=True))
+            if d is not None:
+                ctx.violation("refused-call-changed-state:cross-policy-add_%s:%s" % (what, d[0][0]),
+                              "add_%s of an EDIF-built orphan refused by the DEFAULT-policy parent, but fact %s of the ORPHAN changed from %r to %r" % (
+                                  what, d[0][0], d[1], d[2]))
+        return
+    ctx.count("naming_edits_judged")
+    if accepted and must_refuse:
+        ctx.violation("cross-policy-add-accepts-duplicate-name", "add_%s accepted under the DEFAULT policy although a sibling is named %r" % (what, sub.name))
+        return
+    if not accepted and not must_refuse:
+        ctx.violation("cross-policy-add-false-refusal", "add_%s of an EDIF-built orphan was refused under the DEFAULT policy although no sibling of the "
+                      "same kind shares a name (cables, ports and instances are separate scopes)" % what)
+        return
+    if accepted:
+        for P in [n] + list(n.libraries) + [d_ for l in n.libraries for d_ in l.definitions]:
+            r = scan_scope(ctx, P) or lookup_scope(ctx, P)
+            if r:
+                ctx.violation("cross-policy:%s" % r[0], r[1])
+                return
+    ctx.fingerprint(("cross-to-default", what, must_refuse, accepted), True)
 
 
 def run_case(ctx, i, rng):
@@ -397,6 +490,8 @@ def run_case(ctx, i, rng):
         try:
             for _ in range(8):
                 cross_policy_case(ctx, i, rng)
+            for _ in range(6):
+                to_default_case(ctx, i, rng)
             return
         finally:
             sdn.namespace_manager.default = "DEFAULT"
